@@ -22,7 +22,7 @@ RULE = (
     "multiples of the patch length. Non-trivial: parameters differ from initial values (where the block has any), g != e and "
     "output not identically zero; distinct by configuration."
 )
-RULE += " Also: structured special parameter values (zero / identical rows, zero column, all zeros, all ones) in every third parametrised block, explicit comparator image, GeometricImage pooling methods, magnitudes 1e-3..1e3."
+RULE += " Near-domain stratum: average pooling of extents that are not multiples of the patch length (refused by the library; a tree that accepts them must commute). Also: structured special parameter values (zero / identical rows, zero column, all zeros, all ones) in every third parametrised block, explicit comparator image, GeometricImage pooling methods, magnitudes 1e-3..1e3."
 ASSUMPTIONS = ["reference action", "zones: defect <= 1e-4 held, >= 1e-3 violated, between re-drawn; structured edge inputs are only judged at >= 1e-3", "near-tie guard: relative norm gap < 1e-3 between unequal tensors in a patch => re-draw"]
 ANCHORS = [
     "ginjax.ml.layers:_group_norm_K1", "ginjax.ml.layers:GroupNorm.__call__", "ginjax.ml.layers:VectorNeuronNonlinear.__call__", "ginjax.ml.layers:MaxNormPool.__call__",
@@ -163,6 +163,16 @@ def run(case, ctx):
         with contextlib.redirect_stdout(sink):
             f, sig, sp, cfg, patch, has_params = build(kind, D, rng, case["i"])
             torus = tuple(bool(v) for v in rng.integers(0, 2, size=D))
+            # near-domain stratum (reject-or-commute): average pooling of an image whose extents are not multiples of the patch
+            # length is refused by the library (a patch grid anchored at the origin cannot commute with a reflection there).
+            # A tree that accepts such an image claims a result, which must then commute like any other; a refusal is fine.
+            ragged = kind in ("average_pool_fn", "mi_average_pool", "gi_average_pool") and ((case["i"] // len(KINDS)) % 3 == 1 or (case["i"] // len(KINDS)) % 6 == 3)
+            if ragged:
+                sp = list(sp)
+                j = int(rng.integers(D))
+                sp[j] = sp[j] + int(rng.integers(1, patch))
+                sp = tuple(sp)
+                cfg = {**cfg, "ragged_extents": True}
             key = {"kind": kind, "D": D, "sig": sig, "sp": sp, **cfg}
             G = group_sample(ctx["tier"], D, rng)
             nontrivial = False
@@ -175,7 +185,13 @@ def run(case, ctx):
                     if patch and kind in ("maxnormpool", "max_pool_fn", "gi_max_pool") and inp == "normal" and any(mlgen.near_tie(v, D, patch) for v in x.data.values()):
                         redraws += 1
                         continue
-                    y = f(x)
+                    if ragged:
+                        try:
+                            y = f(x)
+                        except Exception:
+                            return result(key, [], False, evals=0, obs={"near_domain_refused": 1}, hist={"kind": kind + "-ragged", "D": D})
+                    else:
+                        y = f(x)
                     evals += 1
                     Y = probes.blocks(y)
                     if inp == "normal":
@@ -188,7 +204,7 @@ def run(case, ctx):
                         d, msg = mlgen.compare(ygx, mlgen.act_blocks(Y, D, g, 1), 1, S)
                         if d > worst:
                             worst, wg, wmsg = d, g, msg
-                    if patch and kind != "unpool" and worst < 10 * TAU:
+                    if patch and kind != "unpool" and worst < 10 * TAU and not ragged:
                         shift = tuple(patch * int(rng.integers(0, n // patch)) for n in sp)
                         ys = f(mlgen.roll_mi(x, shift))
                         evals += 1
